@@ -78,6 +78,42 @@ T = {
             "SplineOptimizer instantiated with IdentityTimeMap and a duration gradient different from the duration"),
  "S2-C20": ("C20", "batch PPolyND::evaluate carries the segment index between samples and treats the current segment as closed on the right",
             "generateTimeSequence producing a sample exactly on an interior breakpoint (integer knots, dt = 0.5) and a derivative that jumps there"),
+ "S3-C01": ("C01", "QuinticSplineND::solveInternalDerivatives: boundary rows refilled from B_left / B_right in index order; the end rows are written only after the early return taken when there is no interior system",
+            "quintic spline with exactly one segment and an end velocity / acceleration that differs from what the buffer holds"),
+ "S3-C02": ("C02", "SepticSplineND::Inverse3x3: a determinant smaller than DBL_EPSILON in magnitude is replaced by +-DBL_EPSILON before the division",
+            "septic spline, N >= 2, durations of about 400 time units or more (determinant ~ h^-9)"),
+ "S3-C03": ("C03", "PPolyND::findSegment(t, hint): the incoming hint is clamped into range; the first fast path returns the clamped index without writing it back",
+            "hinted evaluation with an out-of-range hint (-1, N, a hint kept across an update to fewer segments) and t in the first / last piece"),
+ "S3-C04": ("C04", "SepticSplineND::getEnergy skips segments shorter than 1e-3 instead of non-positive ones",
+            "septic spline with a segment duration below 1 ms"),
+ "S3-C05": ("C05", "QuinticSplineND::propagateGradInternal: both boundary corrections computed in place in the multiplier workspace",
+            "quintic spline with exactly N = 2 segments (first and last block are the same rows)"),
+ "S3-C06": ("C06", "CubicSplineND::getEnergyGradBoundary evaluates the end acceleration / jerk through trajectory_.evaluate(getDuration(), ...) instead of the end time",
+            "cubic spline with a non-zero start time"),
+ "S3-C07": ("C07", "explicit-time gradient buffer zeroed in Workspace::resize only; calculateIntegralCost no longer clears it per call",
+            "a running cost with explicit global-time dependence, N >= 2, second or later evaluate() on the same workspace"),
+ "S3-C08": ("C08", "calculateIntegralCost: segment start times derived inside the per-segment callable from the previous segment's slot",
+            "an executor that does not visit the segments in ascending order, N >= 2, a running cost that uses global time, durations changed since the last evaluation"),
+ "S3-C09": ("C09", "setOptimizationFlags rebuilds the cached layout only when a layout-relevant flag changed; the comparison leaves out end_j",
+            "septic spline and a setOptimizationFlags call that differs from the held flags in end_j only"),
+ "S3-C11": ("C11", "PPolyND keeps its derivative tables behind a std::shared_ptr that is refilled in place; implicit copies share the table",
+            "source evaluated before it is copied; one of the two objects updated and evaluated; the other evaluated afterwards"),
+ "S3-C12": ("C12", "calculateIntegralCost: for SerialExecutor the segment costs are summed into a local inside the callable and added once",
+            "evaluate() with an executor type other than SerialExecutor compared bit for bit with the serial result, non-zero time cost"),
+ "S3-C13": ("C13", "SepticSplineND::propagateGradInternal (DIM <= 3 arm): the per-coordinate loop breaks at the first coordinate whose multipliers are all zero",
+            "septic, DIM 2 or 3, N >= 2, an upstream gradient whose column is exactly zero for one coordinate and non-zero for a later one"),
+ "S3-C14": ("C14", "SepticSplineND::propagateGradInternal (DIM > 3 arm): dP taken from the cached point differences (opposite sign)",
+            "septic, DIM >= 4, duration gradient obtained through propagateGrad (time reversal: mirrored gradients)"),
+ "S3-C15": ("C15", "SplineOptimizer gains defaulted move constructor and move assignment",
+            "an rvalue source that uses its own default maps (returned temporary, std::move, vector growth), then the source is destroyed"),
+ "S3-C16": ("C16", "SplineOptimizer::checkValidity: the waypoint finiteness loop merged into the loop over durations (row N is never inspected)",
+            "a non-finite value in the last waypoint row, everything else valid"),
+ "S3-C17": ("C17", "QuadInvTimeMap::toTime / backward use exp(tau) for tau <= 0; toTau still inverts the rational branch",
+            "a round trip through both directions of the map with a duration below 1"),
+ "S3-C19": ("C19", "two-cost checkGradients forwards (..., tol, eps) instead of (..., eps, tol)",
+            "two-cost overload with non-default eps / tol, or default arguments with a stiff cost"),
+ "S3-C20": ("C20", "PPolyND::getTrajectoryLength(dt) caches its result per step size behind the derivative-table ready flag",
+            "length query, update with other coefficients, an evaluate(), then the same length query again"),
 }
 EXTRA = os.path.join(V, "seeded", "extra_meta.json")
 if os.path.exists(EXTRA):
